@@ -30,7 +30,12 @@ def main():
     try:
         shutil.copy(demo, wt + "/tests/" + os.path.basename(demo))
         demo_name = os.path.basename(demo)[:-3]
+        feat = ""
         rc, out = sh("CARGO_TARGET_DIR=%s/target cargo test --offline --test %s 2>&1" % (wt, demo_name), cwd=wt)
+        if rc != 0 and ("serde" in open(demo).read()):
+            feat = "--features serde"
+            rc, out = sh("CARGO_TARGET_DIR=%s/target cargo test --offline %s --test %s 2>&1" % (wt, feat, demo_name), cwd=wt)
+        meta["demo_features"] = feat
         meta["demo_passes_without_change"] = rc == 0
         rc, out = sh("git apply %s" % patch, cwd=wt)
         meta["patch_applies"] = rc == 0
@@ -42,7 +47,7 @@ def main():
         meta["existing_tests_pass_with_change"] = ok1 and ok2
         meta["existing_tests_summary"] = r1 + r2
         shutil.copy(demo, wt + "/tests/" + os.path.basename(demo))
-        rc, out = sh("CARGO_TARGET_DIR=%s/target cargo test --offline --test %s 2>&1" % (wt, demo_name), cwd=wt)
+        rc, out = sh("CARGO_TARGET_DIR=%s/target cargo test --offline %s --test %s 2>&1" % (wt, feat, demo_name), cwd=wt)
         meta["demo_fails_with_change"] = rc != 0
         meta["ran"] += ["cargo test --offline [--features serde] in scratch worktree with patch", "cargo test --test %s with/without patch" % demo_name]
     finally:
@@ -57,6 +62,9 @@ def main():
         assert out.strip() == "", "/repo is dirty"
         rc, out = sh("git -C /repo apply %s" % patch)
         assert rc == 0, out
+        # the evidence files must describe runs on the unchanged tree: keep them aside
+        shutil.rmtree("/verif/out/evidence_keep", ignore_errors=True)
+        shutil.copytree("/verif/evidence", "/verif/out/evidence_keep")
         try:
             for c in checks:
                 t = time.time()
@@ -70,6 +78,8 @@ def main():
                         print("   ", l[:260])
                         break
         finally:
+            shutil.rmtree("/verif/evidence", ignore_errors=True)
+            shutil.copytree("/verif/out/evidence_keep", "/verif/evidence")
             sh("git -C /repo checkout -- .")
             rc, out = sh("git -C /repo status --porcelain")
             assert out.strip() == "", "/repo not restored: " + out
